@@ -99,7 +99,7 @@ CHECKS = {
   technique="TLA+ spec (Session.tla) continuation table + exhaustive single-fault enumeration over every exchange of real reads against an independent chip"),
  "C14": dict(
   category="model_checking",
-  text="Evidence.tla writes the three offline evidence verifiers (pace.VerifyEvidence for PACE-CAM, chipauth.VerifyEvidence, activeauth.VerifyEvidence) as chains of checks over a symbolic Diffie-Hellman / MAC / signature term algebra; TLC checks that the genuine capture verifies, that replacing ANY single field (10 CAM + 4 CA + 3 AA fields) by a fresh value of the same type makes the corresponding verifier fail, that the documented joint replacement of ChipKaPub+EcadIC is the only two-field exception, and that the pre-repair design (algorithm field not compared) has the gap. Binding: live sessions of the real Reader against the chip simulator over the mechanisms (CA after BAC / after PACE, PACE-CAM, AA-RSA, AA-ECDSA, AA+CAM with untrusted issuer) with random curves / suites / key sizes are exported with the real ToCbor and verified offline with the real Verifier: the verdict vector (PA, completeness, AA, CAM, CA) and Summary must equal the live ones; then every evidence field named by the specification is replaced by each value-changing mutation (bit flip, shorter, longer, empty, oversized, the same field of ANOTHER genuine session of the same passport, other OIDs / parameter ids) and every obtained data group gets byte flips: the corresponding offline verdict must fail.",
+  text="Evidence.tla writes the three offline evidence verifiers (pace.VerifyEvidence for PACE-CAM, chipauth.VerifyEvidence, activeauth.VerifyEvidence) as chains of checks over a symbolic Diffie-Hellman / MAC / signature term algebra; TLC checks that the genuine capture verifies, that replacing ANY single field (10 CAM + 4 CA + 3 AA fields) by a fresh value of the same type makes the corresponding verifier fail, that the documented joint replacement of ChipKaPub+EcadIC is the only two-field exception, and that the pre-repair design (algorithm field not compared) has the gap; a state machine live read -> export -> tamper (none / any field of a present mechanism / the joint replacement / a document file) -> offline verification over every set of mechanisms a live session can leave evidence of gives the expected offline verdict VECTOR of each case (Reproduces, FieldTamperDetected incl. 'every other verdict stays as it was live', FileTamperDetected, OnlyJointPasses). Binding: live sessions of the real Reader against the chip simulator over the mechanisms (CA after BAC / after PACE, PACE-CAM, AA-RSA, AA-ECDSA, AA+CAM with untrusted issuer) with random curves / suites / key sizes are exported with the real ToCbor and verified offline with the real Verifier: the verdict vector (PA, completeness, AA, CAM, CA) and Summary must equal the live ones; then every evidence field named by the specification is replaced by each value-changing mutation (bit flip, shorter, longer, empty, oversized, the same field of ANOTHER genuine session of the same passport, other OIDs / parameter ids) and every obtained data group gets byte flips: the corresponding offline verdict must fail and, for field changes, the rest of the vector must be the one Evidence.tla gives for that (live set, live PA verdict, field).",
   design_ref="DESIGN.md §6 C14",
   note="Value-preserving changes (leading zero octets of scalars, emptied SmSsc when the counter was 2 - documented legacy default, octets after a DER signature) are outside; EF.SOD / CardSecurity byte changes are judged by C01.",
   technique="TLA+ spec (Evidence.tla) checked with TLC: every single-field replacement must fail; fields named by the spec tampered in real exports and verified with the real Verifier against live sessions with an independent chip"),
